@@ -347,6 +347,8 @@ class Transformer(ast.NodeTransformer):
         self.generic_visit(node)
         if not self.loop_counter or len(node.generators) != 1 or node.generators[0].is_async:
             return node
+        if any(isinstance(sub, ast.NamedExpr) for sub in ast.walk(node)):
+            return node   # a walrus binds in the enclosing scope: keep the native comprehension
         g = node.generators[0]
         tgt_names = _Names()
         tgt_names._target(g.target)
